@@ -156,6 +156,15 @@ impl ISecureFramer for LengthPrefixedFramer {
   fn write_msg_multipart(&mut self, msgs: FrameBatch) -> Result<Bytes, ZmqError> {
     let plaintext = self.framer.frame_contiguous(&[msgs])?;
     let ciphertext = self.cipher.encrypt(&plaintext)?;
+    // The record length is a 16-bit field: a longer record cannot be announced and must be refused
+    // here instead of being sent with a truncated length that the peer cannot decode.
+    if ciphertext.len() > u16::MAX as usize {
+      return Err(ZmqError::InvalidMessage(format!(
+        "encrypted record of {} bytes exceeds the {}-byte record limit",
+        ciphertext.len(),
+        u16::MAX
+      )));
+    }
     let mut out = BytesMut::with_capacity(2 + ciphertext.len());
     out.put_u16(ciphertext.len() as u16);
     out.extend_from_slice(&ciphertext);
@@ -165,6 +174,15 @@ impl ISecureFramer for LengthPrefixedFramer {
   fn write_msg_batch(&mut self, batch: &[FrameBatch]) -> Result<Bytes, ZmqError> {
     let plaintext = self.framer.frame_contiguous(batch)?;
     let ciphertext = self.cipher.encrypt(&plaintext)?;
+    // The record length is a 16-bit field: a longer record cannot be announced and must be refused
+    // here instead of being sent with a truncated length that the peer cannot decode.
+    if ciphertext.len() > u16::MAX as usize {
+      return Err(ZmqError::InvalidMessage(format!(
+        "encrypted record of {} bytes exceeds the {}-byte record limit",
+        ciphertext.len(),
+        u16::MAX
+      )));
+    }
     let mut out = BytesMut::with_capacity(2 + ciphertext.len());
     out.put_u16(ciphertext.len() as u16);
     out.extend_from_slice(&ciphertext);
